@@ -125,3 +125,38 @@ package phase2
 //@       && (forall j int :: 0 <= j && j < i ==> !(edges[j].IsInSpanningTree && edges[j].CutValue < 0)))
 //@   loop range(edges)#1 index i
 //@     invariant forall j int :: 0 <= j && j < i ==> !(edges[j].IsInSpanningTree && edges[j].CutValue < 0)
+
+// entering edge: a non-tree edge other than e from the head component of e to its tail component, of minimum slack,
+// the first such edge of the list on ties; nil exactly when there is no candidate
+//@ spec enterCand(p *networkSimplexProcessor, f *Edge, e *Edge) bool =
+//@   f != e && !f.IsInSpanningTree && p.inHeadComponent(f.From, e) && !p.inHeadComponent(f.To, e)
+
+//@ func networkSimplexProcessor.minSlackNonTreeEdge
+//@   requires p != nil && p.lim != nil && p.low != nil && e != nil && e.IsInSpanningTree && e.From != nil && e.To != nil
+//@   requires forall i int :: 0 <= i && i < len(edges) ==> edges[i] != nil && edges[i].From != nil && edges[i].To != nil && slack(edges[i]) < 9223372036854775807
+//@   modifies nothing
+//@   ensures[nil] result == nil <==> (forall i int :: 0 <= i && i < len(edges) ==> !enterCand(p, edges[i], e))
+//@   ensures[min] result != nil ==> (exists i int :: 0 <= i && i < len(edges) && result == edges[i] && enterCand(p, edges[i], e)
+//@       && (forall j int :: 0 <= j && j < len(edges) && enterCand(p, edges[j], e) ==> slack(edges[i]) <= slack(edges[j]))
+//@       && (forall j int :: 0 <= j && j < i && enterCand(p, edges[j], e) ==> slack(edges[i]) < slack(edges[j])))
+//@   loop range(edges)#1 index c
+//@     invariant replaceCandidate == nil ==> minSlack == 9223372036854775807 && (forall j int :: 0 <= j && j < c ==> !enterCand(p, edges[j], e))
+//@     invariant replaceCandidate != nil ==> (exists i int :: 0 <= i && i < c && replaceCandidate == edges[i] && enterCand(p, edges[i], e) && minSlack == slack(edges[i])
+//@       && (forall j int :: 0 <= j && j < c && enterCand(p, edges[j], e) ==> slack(edges[i]) <= slack(edges[j]))
+//@       && (forall j int :: 0 <= j && j < i && enterCand(p, edges[j], e) ==> slack(edges[i]) < slack(edges[j])))
+
+// normalize shifts all layers by the same amount so that the lowest is 0
+//@ func normalize
+//@   requires g != nil && len(g.Nodes) >= 1
+//@   requires forall i int :: 0 <= i && i < len(g.Nodes) ==> g.Nodes[i] != nil && g.Nodes[i].Layer < 9223372036854775807
+//@   requires forall i int, j int :: 0 <= i && i < j && j < len(g.Nodes) ==> g.Nodes[i] != g.Nodes[j]
+//@   modifies Node.Layer
+//@   ensures[uniform] forall i int, j int :: 0 <= i && i < len(g.Nodes) && 0 <= j && j < len(g.Nodes) ==>
+//@       g.Nodes[i].Layer - g.Nodes[j].Layer == old(g.Nodes[i].Layer) - old(g.Nodes[j].Layer)
+//@   ensures[zero] (forall i int :: 0 <= i && i < len(g.Nodes) ==> g.Nodes[i].Layer >= 0) && (exists i int :: 0 <= i && i < len(g.Nodes) && g.Nodes[i].Layer == 0)
+//@   loop range(g.Nodes)#1 index a
+//@     invariant forall k int :: 0 <= k && k < a ==> lowest <= g.Nodes[k].Layer
+//@     invariant a == 0 ? lowest == 9223372036854775807 : (exists k int :: 0 <= k && k < a && lowest == g.Nodes[k].Layer)
+//@   loop range(g.Nodes)#2 index b
+//@     invariant forall k int :: 0 <= k && k < b ==> g.Nodes[k].Layer == old(g.Nodes[k].Layer) - lowest
+//@     invariant forall k int :: b <= k && k < len(g.Nodes) ==> g.Nodes[k].Layer == old(g.Nodes[k].Layer)
